@@ -89,7 +89,9 @@ impl Program {
 
     pub fn link(&mut self) -> (Address, Arc<Vec<Error>>, Arc<Vec<Error>>) {
         match self.link.last() {
-            Some(Opcode::End) => {}
+            // A trailing END is enough unless a label points behind it
+            // (e.g. `IF X THEN END` as the last statement).
+            Some(Opcode::End) if !self.link.is_symbol_address(self.link.len()) => {}
             _ => {
                 if let Err(error) = self.link.push(Opcode::End) {
                     Arc::make_mut(&mut self.errors).push(error);
